@@ -141,7 +141,10 @@ func c06Check(st *c06State, kind string, v interface{}) (msg, finding string) {
 
 var c06DerivSubs = []string{"", "m", "a/b", "modules/vpc-1", "x.tf"}
 var c06DerivSubsOdd = []string{"a b", "a#b", "a%20b", "módulo", "a@1.0.0", "a?b", "a+b", "a&b", "%", "a\"b"}
-var c06DerivLocals = []string{"./", "./x", "../", "../y", "../../z", "./a/b"}
+// relative operands: plain ones, and names holding every character that has
+// a meaning somewhere in the address syntax
+var c06DerivLocals = []string{"./", "./x", "../", "../y", "../../z", "./a/b",
+	"./a?b", "./?", "./a#b", "./a@1.0.0", "./a%20b", "./a%2Fb", "./a b", "./a:b", "./a::b", "./a=b&c", "../q?ref=x", "./git::x", "./x.tgz", "./a;b", "./a+b", "./~a", "./a\\b", "./a'b\"c", "./ü/テ"}
 var c06DerivVersions = []string{"1.0.0", "0.0.0", "2.1.0-beta.2", "1.0.0+build.7", "3.0.0-rc.1+exp.sha.5114f85"}
 
 type c06Val struct {
